@@ -20,4 +20,88 @@ PROPS = {
             "grid lookups within rounding distance of a knot may land in either adjacent bin",
         ],
     ),
+    "C03": dict(
+        flavour="asan",
+        level="exploration",
+        harnesses=["c03_nav"],
+        quick=dict(shards=16, cases=600, min_nontrivial=500),
+        thorough=dict(shards=16, cases=20000, fuzz_s=600, fuzz_jobs=16, fuzz_max_len=512, min_nontrivial=500),
+        assumptions=COMMON_ASSUME + [
+            "geometries are valid ORANGE inputs: bundled .org.json files (those with identical surfaces in one unit or "
+            "without runtime support are skipped), raw OrangeInput and construction-API models that are non-overlapping by construction",
+            "start points are farther than 4*delta from every surface (initialising on a surface is documented as prohibited); "
+            "crossings within delta of another candidate (corner, tangent, coincident faces) are counted, positions there are not judged",
+            "navigation operations are generated only in the orders the documented protocol and the real callers "
+            "(LinearPropagator, FieldPropagator, BoundaryExecutor) use",
+            "delta = 4*max(tol.abs, tol.rel*|x|) of the input under test",
+        ],
+    ),
+    "C13": dict(
+        flavour="asan",
+        level="exploration",
+        harnesses=["c13_rng"],
+        exhaustive=["c13_rng"],
+        quick=dict(shards=15, cases=40000, min_nontrivial=1000),
+        thorough=dict(shards=16, cases=1500000, fuzz_s=600, fuzz_jobs=16, fuzz_max_len=48, min_nontrivial=1000),
+        assumptions=COMMON_ASSUME + [
+            "reference = Marsaglia's xorwow recurrence transcribed from the paper and its 160x160 GF(2) transition matrix; "
+            "states are sampled (the jump is linear in the state, so a wrong polynomial fails for all but a 2^-k fraction of states)",
+            "sub-claims decided exhaustively: every one of the 64 jump polynomials alone, order of T = 2^160-1, "
+            "GenerateCanonical32<float> over all 2^32 outputs",
+        ],
+    ),
+    "C15": dict(
+        flavour="asan",
+        level="exploration",
+        harnesses=["c15_dist", "c15_eloss"],
+        quick=dict(shards=8, cases=5000, min_nontrivial=1000, per_harness={"c15_eloss": dict(cases=3500)}),
+        thorough=dict(shards=8, cases=150000, fuzz_s=300, fuzz_jobs=8, fuzz_max_len=168, min_nontrivial=1000,
+                      per_harness={"c15_eloss": dict(cases=100000)}),
+        assumptions=COMMON_ASSUME + [
+            "statistical oracles reject at alpha=1e-9 per test and only if a re-test on a fresh stream also fails; "
+            "biases below ~4/sqrt(N) (N <= 2e4 per case) are not detectable",
+            "documented approximations are fitted against their documented construction (Poisson above lambda=16: rounded normal)",
+        ],
+    ),
+    "C20": dict(
+        flavour="asan",
+        level="exploration",
+        harnesses=["c20_optical"],
+        quick=dict(shards=16, cases=12000, min_nontrivial=1000),
+        thorough=dict(shards=16, cases=400000, fuzz_s=600, fuzz_jobs=16, fuzz_max_len=256, min_nontrivial=1000),
+        assumptions=COMMON_ASSUME + [
+            "refractive-index tables are strictly increasing in energy (required by optical::MaterialParams); "
+            "Cerenkov offload means above 16 photons are not generated",
+            "per-photon tolerances: norms/orthogonality 1e-10, cone 1e-7 (rotate() recovers the polar angle as sqrt(1-z^2)), "
+            "scintillation d.p 6e-8",
+        ],
+    ),
+    "C14": dict(
+        flavour="asan",
+        level="exploration",
+        harnesses=["c14_calc", "c14_step"],
+        quick=dict(shards=8, cases=30000, min_nontrivial=1000, per_harness={"c14_step": dict(cases=1200)}),
+        thorough=dict(shards=8, cases=800000, fuzz_s=300, fuzz_jobs=8, fuzz_max_len=512, min_nontrivial=1000,
+                      fuzz=["c14_calc"], per_harness={"c14_step": dict(cases=40000)}),
+        assumptions=COMMON_ASSUME + [
+            "tables respect the builders' documented preconditions (positive log-spaced grids, range tables generated as the "
+            "integral of 1/(dE/dx)); energies above the table maximum are not judged for range-based relations",
+            "tolerance tau = 64 eps (1+|ln E|) E max|slope of adjacent bins| + 8 eps |y|: the code bins on ln E but interpolates on exp(knot)",
+            "monotonicity of the mean loss in the step is required within a branch of the documented two-branch algorithm",
+        ],
+    ),
+    "C10": dict(
+        flavour="asan",
+        level="exploration",
+        harnesses=["c10_csg"],
+        exhaustive=["c10_csg"],
+        quick=dict(shards=16, cases=2500, min_nontrivial=1000),
+        thorough=dict(shards=16, cases=100000, fuzz_s=900, fuzz_jobs=16, fuzz_max_len=400, fuzz_args=["-len_control=0"], min_nontrivial=1000),
+        assumptions=COMMON_ASSUME + [
+            "each generated tree has <= 12 surfaces so its truth table is computed exhaustively (no sampling of assignments); "
+            "the space of trees is sampled",
+            "documented preconditions are respected: simplify(start) with false_node_id < start < size, "
+            "transform_negated_joins only on alias-free trees without double negations",
+        ],
+    ),
 }
